@@ -196,6 +196,7 @@ CHECKS["C27"] = {
 
 CHECKS["C28"] = {
     "level": "fault_enumeration",
+    "timeout_s": {"quick": 400, "thorough": 1800},
     "crash_is_violation": True,
     "technique": "runtime monitoring in virtual time: gateway misbehaviours enumerated per API call; return-within-bound oracle and goroutine-leak inspection of the bubble's goroutine dump",
     "level_text": "About 50 gateway behaviours (silence/disconnect at each step, every unexpected packet type, garbage) x every API call x keep-alive on/off, plus all pairs of concurrent calls under four behaviours; every call runs in its own goroutine and must have returned after twice the documented bound of virtual time; after Close the goroutine dump of the bubble must contain no client goroutine.",
